@@ -188,14 +188,53 @@ CHECKS = {
               "the import account) over the transactions of T equals the multiset of booking rows under the importer's documented sign convention (golden file + column names), transaction "
               "count = booking-row count, no other directive kinds; viac: only prices, one per non-zero value on/after --from, equal to the value at two decimals (either neighbour at an exact tie). "
               "Description text is not compared. Non-trivial: >=2 booking rows with both signs and >=1 of {thousands separator, hostile character in a description field, FX/continuation row}; "
-              "viac: >=2 carried values and >=1 of {zero value skipped, value needing rounding, --from}. Labels importer:<name> and <name>:<feature> show per-importer coverage."),
+              "viac: >=2 carried values and >=1 of {zero value skipped, value needing rounding, --from}. Labels importer:<name> and <name>:<feature> show per-importer coverage. "
+              "PART B (revolut, revolut2, com.wise, ch.swissquote, us.interactivebrokers). Inputs: per importer a chronological row model from a zero opening balance, laid out in the importer's "
+              "statement format (balance columns, per-(date,currency) balances, period-end positions and forex balances computed from the rows; amounts with the format's separators and signs; "
+              "header/total/sub-total/execution/lot lines, pending and CANCELLED rows as noise; free text from ' \" ; , tab newline @ # * % \\ // blanks Unicode empty and journal keywords). Oracle: real binary exits 0 "
+              "with empty stderr; a second import is byte-identical (8 re-imports when a date carries several currencies); the harness's own reader parses the output; multiset of (date, per-commodity effect on the import account) per transaction "
+              "equals the booking rows' signed amounts (FX / forex pair / cross-currency rows with the documented pairing), transaction count included; emitted assertions equal the balances the statement carries and "
+              "nothing else is emitted; opens + output is accepted by knut check (carried assertions included) and reproduced byte for byte by knut print. Non-trivial: >=2 booking rows with both signs and >=1 of "
+              "thousands separator, hostile character, FX/fee/forex-pair row, carried assertion; distinct by statement text."),
         assumptions=["expected effects encode each importer's documented sign convention (golden file and column names), not an invented one",
                      "characters that need it are carried in CSV fields by RFC-4180 quoting (doubled quotes); newlines inside fields are not generated",
                      "swisscard2 credit rows carry a negative Betrag (the golden file has charges only)",
                      "cumulus payment-section texts never look like a date (the importer recognises booking rows by two date-like leading fields)"],
         quick=dict(tests=[dict(name="TestC13A_Cumulus", cases=160, shards=1), dict(name="TestC13A_Postfinance", cases=160, shards=1), dict(name="TestC13A_Supercard", cases=160, shards=1),
-                          dict(name="TestC13A_Swisscard", cases=160, shards=1), dict(name="TestC13A_Swisscard2", cases=160, shards=1), dict(name="TestC13A_Viac", cases=160, shards=1)]),
+                          dict(name="TestC13A_Swisscard", cases=160, shards=1), dict(name="TestC13A_Swisscard2", cases=160, shards=1), dict(name="TestC13A_Viac", cases=160, shards=1),
+                          dict(name="TestC13B_Revolut", cases=320, shards=2), dict(name="TestC13B_Revolut2", cases=320, shards=2), dict(name="TestC13B_Wise", cases=320, shards=2),
+                          dict(name="TestC13B_Swissquote", cases=320, shards=2), dict(name="TestC13B_InteractiveBrokers", cases=320, shards=2)]),
         thorough=dict(tests=[dict(name="TestC13A_Cumulus", cases=3200, shards=4), dict(name="TestC13A_Postfinance", cases=3200, shards=4), dict(name="TestC13A_Supercard", cases=3200, shards=4),
-                             dict(name="TestC13A_Swisscard", cases=3200, shards=4), dict(name="TestC13A_Swisscard2", cases=3200, shards=4), dict(name="TestC13A_Viac", cases=3200, shards=4)]),
+                             dict(name="TestC13A_Swisscard", cases=3200, shards=4), dict(name="TestC13A_Swisscard2", cases=3200, shards=4), dict(name="TestC13A_Viac", cases=3200, shards=4),
+                             dict(name="TestC13B_Revolut", cases=4800, shards=4), dict(name="TestC13B_Revolut2", cases=4800, shards=4), dict(name="TestC13B_Wise", cases=4800, shards=4),
+                             dict(name="TestC13B_Swissquote", cases=4800, shards=4), dict(name="TestC13B_InteractiveBrokers", cases=4800, shards=4)]),
+    ),
+    "C16": dict(
+        level="exploration",
+        rule=("Inputs: accepted journals from the history generator (closes, re-opens, accruals, liabilities, several commodities) with a price forest declared on the first day, "
+              "x a drawn valuation commodity; half of the journals open the Income:<path> valuation mirror accounts themselves (searching behind known finding KF-C16-1). "
+              "Oracle: `knut transcode -v V` read by the harness's own beancount reader: operating currency; entries in non-decreasing date order; sequential lifecycle scan (open before use, "
+              "no use after close, no double open); every transaction's postings sum to exactly 0 in V; and the multiset of transactions keyed by (date, account set) with amounts within 2e-8 "
+              "equals the reference valued-transaction list (DESIGN App. B.5: every booking valued at the booking day's price, plus one adjustment per price change and open non-V A/L position). "
+              "Non-trivial: >=2 user transactions and >=1 value adjustment; distinct by (journal, V)."),
+        assumptions=["forest price graphs only", "journals with a missing price are left to C03"],
+        quick=dict(tests=[dict(name="TestC16", cases=3200)]),
+        thorough=dict(tests=[dict(name="TestC16", cases=64000)]),
+    ),
+    "C15": dict(
+        level="exploration",
+        rule=("Inputs: training journals (empty file, no transactions, transactions only, mixed; accounts booked against themselves, bookings containing the placeholder, "
+              "mirrored transactions that make two candidates tie, include trees of 1-4 files in nested directories, or the target itself as training file) x target journals "
+              "in noisy layout (placeholder on credit side, debit side, both sides, several per transaction, none; look-alike accounts such as P:Sub, PX, lower-case P; placeholder "
+              "in open/balance/@accrue positions) x placeholder (default Expenses:TBD or -a/--account NAME), stdout and --inplace. Oracle: `knut infer` output vs `knut format` of a copy "
+              "of the target, both read with knut's parser: identical gaps and fields except booking accounts that were the placeholder; each of those is an account of a training booking "
+              "(bookings containing the placeholder are not training data) different from the other account of its booking in the output, or unchanged exactly when no such account exists; "
+              "output parses; 6 runs byte-identical (30 where the harness-side classification sees tied candidates, 2 when the target has no placeholder booking); output equals `knut format` of the formatted target with the chosen names substituted; --inplace leaves the same bytes and an empty stdout. "
+              "Non-trivial: >=1 placeholder booking in the target and >=2 candidate accounts in the training journal; distinct by case."),
+        assumptions=["knut's parser is used to read both outputs (trusted base, guarded by C07)",
+                     "placeholder occurrences outside bookings (open/balance/@accrue) may stay or become a training account (statement is silent)",
+                     "macro accounts ($x) are not generated"],
+        quick=dict(tests=[dict(name="TestC15", cases=3200)]),
+        thorough=dict(tests=[dict(name="TestC15", cases=48000)]),
     ),
 }
